@@ -10,7 +10,7 @@ let zi s = z_of_int (int_of_string s)
 let b01 s = s = "1"
 (* the world id is <compiler> + 10 * <version of the cincdir header> + 100 * <version of the header reached only via --cflags -I>; nelua's target-info probe only sees the compiler
    (unless the heading hash also covers the local headers: Gen.HEADERS_HASHED) *)
-let ccinfo_of (w : z) : z = z_of_int (int_of_z w mod (if hEADERS_HASHED then 100 else 10))
+let ccinfo_of (w : z) : z = vis hEADERS_HASHED w
 let cc_ok (b : built) = let ((code, _), _) = b in int_of_z code < 900
 
 let parse_inv f =
